@@ -62,9 +62,11 @@ def varint_len(u):
     return n
 
 
-def varint(u, pad=0):
-    """canonical (pad == 0) or padded base-128 encoding of u in [0, 2**64)"""
+def varint(u, pad=0, limit=10):
+    """canonical (pad == 0) or padded base-128 encoding of u in [0, 2**64); padding never
+    makes the encoding longer than `limit` bytes (tags and lengths are 32-bit: 5 bytes)"""
     n = varint_len(u)
+    pad = max(0, min(pad, limit - n))
     out = SymBytes([])
     total = n + pad
     for i in range(total):
@@ -99,7 +101,7 @@ def fixed(x, nbytes):
 
 
 def tag(number, wt, pad=0):
-    return varint((number << 3) | wt, pad)
+    return varint((number << 3) | wt, pad, 5)
 
 
 def scalar_payload(kind, v):
@@ -152,13 +154,13 @@ def field(number, kind, v, pad=0):
     wt = wire_type(kind)
     p = scalar_payload(kind, v)
     if wt == 2:
-        return cat(tag(number, 2, pad), varint(len(p), pad), p)
+        return cat(tag(number, 2, pad), varint(len(p), pad, 5), p)
     return cat(tag(number, wt, pad), p)
 
 
 def len_field(number, payload, pad=0):
     payload = SymBytes.lift(payload)
-    return cat(tag(number, 2, pad), varint(len(payload), pad), payload)
+    return cat(tag(number, 2, pad), varint(len(payload), pad, 5), payload)
 
 
 def length_prefixed(payload):
